@@ -699,3 +699,5 @@ MWH = 'src/ompl/base/objectives/MechanicalWorkOptimizationObjective.h'
 MWC = 'src/ompl/base/objectives/src/MechanicalWorkOptimizationObjective.cpp'
 seed('c04-mechanical-work-claims-symmetry', 'C04', [(MWH, "            bool isSymmetric() const override\n            {\n                return false;\n            }\n", "")], 'R04s')
 seed('c04-n-mechanical-work-operands-commuted', 'C04', [(MWC, "return Cost(positiveCostAccrued + pathLengthWeight_ * si_->distance(s1, s2));", "return Cost(si_->distance(s1, s2) * pathLengthWeight_ + positiveCostAccrued);")], None)
+OOC = 'src/ompl/base/src/OptimizationObjective.cpp'
+seed('c04-multi-objective-ignores-components-symmetry', 'C04', [(OOC, "    for (const auto &component : components_)\n        if (!component.objective->isSymmetric())\n            return false;\n    return OptimizationObjective::isSymmetric();", "    return OptimizationObjective::isSymmetric();")], 'R04s')
